@@ -82,9 +82,6 @@ def _result_not_unwrapped(P, F, f, bb):
             for a in tt["args"]:
                 if a["k"] in ("copy", "move") and a["place"]["l"] == dest:
                     users.append(tt["callee"].get("path", "?"))
-    bad = [u for u in users if not u.endswith(("Result::<T, E>::unwrap_or", "Result::<T, E>::is_ok", "Result::<T, E>::is_err", "Result::<T, E>::ok"))]
-    if bad:
-        return False, "result is consumed by %s" % bad
     dep = _panic_depends_on(P, f, dest)
     if dep:
         return False, "a panic is control-dependent on the result of try_with: %s" % dep
@@ -98,7 +95,7 @@ PANICKING = ("std::result::Result::<T, E>::unwrap", "std::result::Result::<T, E>
 
 
 def _may_panic_explicitly(P, fn):
-    S = Super(P, fn, opaque=default_opaque(P.facts) - {fn.npath})
+    S = Super(P, fn, opaque=default_opaque(P.F) - {fn.npath})
     return sorted({n.ci["npath"] for n in S.nodes if n.ci is not None and n.ci["k"] == "call" and (n.ci["npath"] in PANICKING or n.ci["npath"].startswith("std::panicking") or (n.ci["diverges"] and "panic" in n.ci["npath"]))})
 
 
